@@ -2,6 +2,7 @@ package props
 
 import (
 	"bytes"
+	"io"
 	"fmt"
 	"image"
 	"reflect"
@@ -138,6 +139,27 @@ func checkC17(c *c17Case, o *core.Obs) error {
 			}
 		} else {
 			errPrefixes++
+		}
+		// the same prefix through a reader without Len() (files, sockets, image.Decode's wrapper)
+		img2, err2 := webp.Decode(io.MultiReader(bytes.NewReader(pre)))
+		if (err2 == nil) != (err == nil) {
+			return fmt.Errorf("prefix of %d/%d bytes: Decode from a bytes.Reader err=%v, from a plain io.Reader err=%v (layout %s)", n, len(full), err, err2, layout)
+		}
+		if err2 == nil {
+			v := viewOf(img2, nil)
+			if v.Type != fView.Type || v.Bounds != fView.Bounds || !bytes.Equal(v.Pix, fView.Pix) {
+				return fmt.Errorf("prefix of %d/%d bytes read from a plain io.Reader decodes without error to a different picture (layout %s)", n, len(full), layout)
+			}
+		}
+		if cfg, err := webp.DecodeConfig(io.MultiReader(bytes.NewReader(pre))); err == nil {
+			if cfg.Width != fCfg.Width || cfg.Height != fCfg.Height || cfg.ColorModel != fCfg.ColorModel {
+				return fmt.Errorf("DecodeConfig (plain io.Reader) on a %d/%d-byte prefix reports %dx%d, complete file %dx%d (layout %s)", n, len(full), cfg.Width, cfg.Height, fCfg.Width, fCfg.Height, layout)
+			}
+		}
+		if ft, err := webp.GetFeatures(io.MultiReader(bytes.NewReader(pre))); err == nil {
+			if !reflect.DeepEqual(*ft, *fFeat) {
+				return fmt.Errorf("GetFeatures (plain io.Reader) on a %d/%d-byte prefix reports %+v, complete file %+v (layout %s)", n, len(full), *ft, *fFeat, layout)
+			}
 		}
 		if cfg, err := webp.DecodeConfig(bytes.NewReader(pre)); err == nil {
 			if cfg.Width != fCfg.Width || cfg.Height != fCfg.Height || cfg.ColorModel != fCfg.ColorModel {
